@@ -71,6 +71,15 @@ def stimuli(tier, seed, ctx):
             ev = rnd.choice(['inc', 'dec', 'put', 'reset', 'resetv', 'inc1', 'dec1', 'putmissing'])
             evs.append([ev, num() if ev in ('inc', 'dec', 'put', 'resetv') else 0])
         out.append(_mk(mod, scale, init, evs, restored))
+    # (ii-b) very large moduli: the last counts before the wrap-around are as exact as any other
+    for _ in range(30 if tier == 'quick' else 400):
+        mod = rnd.choice([2 ** 30 - 1, 10 ** 9, 2 ** 30 - 35])
+        init = mod - rnd.randint(1, 6)
+        evs = []
+        for _ in range(rnd.randint(2, 10)):
+            ev = rnd.choice(['inc', 'inc', 'inc1', 'dec', 'dec1', 'put'])
+            evs.append([ev, rnd.randint(0, 4) if ev in ('inc', 'dec') else mod - rnd.randint(1, 4) if ev == 'put' else 0])
+        out.append(_mk(mod, 1, init, evs, None))
     # (iii) modulo = 0 is refused at construction
     out.append(_mk(0, 1, 0, []))
     return out
